@@ -461,6 +461,42 @@ theorem c09_verifiers_total (fn : String) (t : Tok) : verifyPanics genFacts fn t
       · simpa [hoo] using hsafe
       · exact absurd hpt (parseToken_no_nil _ _ hoo)
 
+/-- the result contract, decided on the regenerated return statements and callers: every return of a verifier that its
+    callers go on from (the success return; a return wrapping the error as the type a caller lets through —
+    `IDTokenHintExpiredError`) hands back the parsed claims, never nil -/
+theorem verifier_contract : contractOK genFacts = true := by decide
+
+/-- **C09 (B, callers of the verifiers)**: whatever check of the verifier refuses the token (or none), a caller that
+    tolerates the verifier's typed error never goes on with nil claims -/
+theorem c09_hint_callers_total : ∀ c ∈ genFacts.callers, ∀ check : String, callerMayPanic genFacts c check = false := by
+  intro c hc check
+  have h := verifier_contract
+  simp only [contractOK, Bool.and_eq_true, List.all_eq_true] at h
+  unfold callerMayPanic
+  rw [List.any_eq_false]
+  intro r hr
+  have := h.1 c hc r hr
+  simp only [Bool.not_eq_true'] at this
+  simp [this]
+
+/-- the contract is not vacuous: the two callers of `VerifyIDTokenHint` and its three soft-error returns are there … -/
+example : genFacts.callers.length = 2 ∧ (genFacts.returns.filter fun r => r.err == "typed").length = 3 := by decide
+/-- … and a verifier that wraps a failed iat check as the tolerated error but returns the zero claims breaks it -/
+example : callerMayPanic
+    { returns := [{ fn := "op.VerifyIDTokenHint", value := "nilClaims", isTarget := false, err := "typed", errType := "IDTokenHintExpiredError", check := "oidc.CheckIssuedAt", cond := "" }] }
+    { fn := "op.ValidateEndSessionRequest", callee := "op.VerifyIDTokenHint", target := "claims", errType := "IDTokenHintExpiredError", guarded := false, derefs := 3, passes := 0 }
+    "oidc.CheckIssuedAt" = true := by decide
+
+/-- locals that are assigned only inside function literals but used outside: exactly the one of the known finding F-C09f
+    (`op.Authorize`: `client`, nil when an `AuthorizeValidator` replaces the default validation closure) -/
+theorem closure_assigned_known : GenC09.closureAssigned = knownClosureAssigned := by decide
+theorem c09f_witness : ("op.Authorize", "client") ∈ GenC09.closureAssigned := by decide
+
+/-- verifiers and their callers together -/
+theorem c09_verifiers_and_callers_total (fn : String) (t : Tok) :
+    verifyPanics genFacts fn t = false ∧ ∀ c ∈ genFacts.callers, ∀ check : String, callerMayPanic genFacts c check = false :=
+  ⟨c09_verifiers_total fn t, c09_hint_callers_total⟩
+
 /-! ### (C) client helpers -/
 
 /-- every decode into the address of a pointer variable is harmless: guarded by a nil test, or the variable is neither
